@@ -17,7 +17,9 @@ LFOps == <<OpLF>>
 
 \* ------------------------------------------------------------------ P-layer operators
 \* the messages of one use of auto(): cfg = [start, end, body : Seq([k, m])]
+\* (c.prev: the messages of earlier runs of the same indicator on this terminal - their lines are still on the screen)
 MsgsOf(c) == {c.start, c.end} \cup {c.body[k].m : k \in {j \in 1..Len(c.body) : c.body[j].k = "set"}}
+             \cup {c.prev[k] : k \in 1..Len(c.prev)}
 \* a row shows exactly one frame: blank, one indicator value, blank, one of the messages  (trailing blanks aside)
 \* (a not decorated output - mode "plain" - shows the documented format without indicator: blank, message)
 IsOneFrame(row, msgs, mode) ==
@@ -27,6 +29,7 @@ IsOneFrame(row, msgs, mode) ==
 NoMixT(t, msgs, mode) == \A k \in 1..Len(t.rows) : RTrim(t.rows[k]) = <<>> \/ IsOneFrame(t.rows[k], msgs, mode)
 \* the last thing on the screen is a frame with the end message, and nothing has been drawn behind it: the row the
 \* cursor is left on (after the line end that closes the indicator's line) is blank and lies below that frame
-EndFrameT(t, end, mode) == LET s == Screen(t) IN /\ s # <<>> /\ IsOneFrame(s[Len(s)], {end}, mode)
+\* r0 = the row the cursor was on when THIS run began: the frame must have been drawn by this run, not be a leftover
+EndFrameT(t, end, mode, r0) == LET s == Screen(t) IN /\ s # <<>> /\ IsOneFrame(s[Len(s)], {end}, mode) /\ Len(s) >= r0
                                            /\ t.r > Len(s) /\ RTrim(t.rows[t.r]) = <<>>
 =============================================================================
